@@ -102,6 +102,19 @@ static void read_routes (int format, int ch, int variant)
 		if (!same_fds (before, nb, after, na)) vh_viol (vh_key ("C14|fd-table|%s", fn), "the set of open descriptors changed across sf_open_fd/sf_close (other than the one passed in)") ;
 		vh_stat ("close_desc_checks", 1) ;
 		}
+	/* the descriptor NUMBER must not matter: the same file on descriptor 0 (a process that closed stdin), close_desc 1 and 0 */
+	if (!(variant & 12)) for (i = 0 ; i < 2 ; i++)
+	{	int saved = dup (0), fd, closed ; if (saved < 0) break ;
+		close (0) ; fd = open (path, O_RDONLY) ;
+		if (fd != 0) { if (fd >= 0) close (fd) ; dup2 (saved, 0) ; close (saved) ; break ; }
+		memset (&o, 0, sizeof (o)) ; memset (&si, 0, sizeof (si)) ; if (raw) { si.format = format ; si.channels = ch ; si.samplerate = 8000 ; }
+		s = sf_open_fd (0, SFM_READ, &si, i) ; if (s) { observe (s, &si, &o, 0, cap) ; sf_close (s) ; } else o.err = sf_error (NULL) ;
+		closed = (fcntl (0, F_GETFD) == -1) ;
+		if (!closed) close (0) ;
+		dup2 (saved, 0) ; close (saved) ;
+		cmp_obs (fn, i ? "fd0(close_desc=1)" : "fd0(close_desc=0)", &ref, &o, 0, 0) ; vh_stat ("route_comparisons", 1) ; vh_stat ("descriptor_0_opens", 1) ;
+		if (s && closed != i) vh_viol (vh_key ("C14|close-desc|fd0|%s", i ? "true-but-left-open" : "false-but-closed"), "%s: sf_open_fd (0, close_desc=%d): descriptor 0 is %s after sf_close", fn, i, closed ? "closed" : "open") ;
+		}
 	/* embedded at offset k (containers that support it) */
 	if ((maj == SF_FORMAT_WAV || maj == SF_FORMAT_WAVEX || maj == SF_FORMAT_AIFF || maj == SF_FORMAT_AU) && !(variant & 12))	/* a damaged or truncated file has no well-defined extent inside a larger file */
 	{	int offs [5] = { 1, 7, 4096, 2 + vh_rint (4900), 2 + vh_rint (4900) } ; int k ;
